@@ -21,7 +21,39 @@ const waitLong = 10 * time.Second
 
 func idName(i int) string { return "n" + strconv.Itoa(i) }
 
-func hostName(h int) string { return "h" + strconv.Itoa(h) + ":1" }
+// hostName: the address of abstract host h.  The first hosts get addresses that are pairwise distinct
+// strings but look alike under the usual "normalisations" (loopback spellings, a port that is a prefix
+// of another, a trailing dot, the same host behind two ports): an implementation that compares addresses
+// by anything but string equality shows on them (round-4 seed C20-r4-2).
+var hostTable = []string{
+	"127.0.0.1:4000", "127.0.0.2:4000", "localhost:4000", "127.0.0.1:40000", "10.0.0.1:4000", "10.0.0.10:400",
+	"10.0.0.1:400", "[::1]:4000", "example.org:4000", "127.0.0.9:4000", "example.org.:4000", "127.0.0.3:4000",
+	"127.0.1.1:4000", "127.0.0.4:4000", "0.0.0.0:4000", "10.0.0.1:4001",
+}
+
+func hostName(h int) string {
+	if h >= 0 && h < len(hostTable) {
+		return hostTable[h]
+	}
+	return "h" + strconv.Itoa(h) + ":1"
+}
+
+// hostNum is the inverse of hostName (-1: not one of ours)
+func hostNum(addr string) int {
+	for i, a := range hostTable {
+		if a == addr {
+			return i
+		}
+	}
+	if !strings.HasPrefix(addr, "h") || !strings.HasSuffix(addr, ":1") {
+		return -1
+	}
+	n, err := strconv.Atoi(addr[1 : len(addr)-2])
+	if err != nil || n < len(hostTable) {
+		return -1
+	}
+	return n
+}
 
 func kindName(k int) string { return "k" + strconv.Itoa(k) }
 
